@@ -4,9 +4,16 @@
   (`yield x` after `if let Err(e) = &x { .. } else { yield x }` yields an Ok), decided over definitions, discriminant
   tests and is_ok / is_err / is_some / is_none predicates -- never over the spelling of the test.
 * census_sites: lib_c16.panic_sites minus arithmetic assertions that provably cannot fire (lib_c10._sum_of_two_lengths).
+* site_cannot_fail: a potential panic site decided by evaluating its function on every input (lib_c07.StrInterp): a lookup in a
+  constant table keyed by a field-less enum that has an entry for every variant cannot miss.
 
 Nothing here keys on block numbers, line numbers or source text."""
+import itertools
+import re
+
+from . import absint as A
 from .lib import operand_local
+from .lib_c07 import StrInterp
 from .lib_c10 import _sum_of_two_lengths
 from .lib_c16 import panic_sites
 
@@ -144,3 +151,106 @@ def census_sites(fn):
             continue
         out.append((kind, what, bucket, bb))
     return out
+
+
+# --------------------------------------------------------------------------- a site decided by exhaustive evaluation
+class _SiteFails(Exception):
+    pass
+
+
+_UNWRAP_LIKE = re.compile(r"(?:^|::)(Option)::<T>::(unwrap|expect)$|(?:^|::)(Result)::<T, E>::(unwrap|expect|unwrap_err|expect_err)$")
+
+
+class _SiteInterp(StrInterp):
+    """lib_c07.StrInterp (constants, field-less enums, constant tables, iterator lookups over them, string equality) that
+    watches one potential panic site of one function: an unwrap-like call there is passed when the tested value is
+    concretely the variant that does not panic (and execution goes on with its payload); anything else arriving there
+    is a failure."""
+
+    def __init__(self, facts, g, site, choices=()):
+        StrInterp.__init__(self, facts, choices)
+        for k in ("then_some", "then"):
+            s = A.GENERIC_SUMMARIES.get("std::bool::<impl bool>::" + k)
+            if s is not None:
+                self.summaries["core::bool::<impl bool>::" + k] = s
+        self.g, self.site, self.passed = g, site, 0
+
+    def do_call(self, fn, frame, t, bb):
+        if fn is self.g and bb == self.site:
+            m = _UNWRAP_LIKE.search(t.get("callee") or "")
+            if not m or not t["args"]:
+                raise _SiteFails("the site is reached")
+            v = self.deref_all(self.operand(frame, t["args"][0]))
+            if v is None or v[0] != "enum" or v[1] not in _VARIANTS:
+                raise A.LeavesFragment("the tested value is not a concrete Option / Result")
+            good = "Some" if m.group(1) else ("Err" if m.group(4).endswith("_err") else "Ok")
+            if v[3] != good:
+                raise _SiteFails("the tested value is %s" % v[3])
+            self.passed += 1
+            return v[4][0] if v[4] else ("zst", None)
+        return StrInterp.do_call(self, fn, frame, t, bb)
+
+
+def site_cannot_fail(facts, g, site, max_inputs=64):
+    """(True, why) when the potential panic site in block `site` of function `g` is decided not to fire by evaluating
+    `g` on EVERY input: each parameter whose type is a field-less enum of the fact base (by value or behind references)
+    ranges over all its variants, every other parameter is opaque (a branch on it is explored both ways), constant
+    tables are the values the driver rendered.  The typical case is a lookup in a constant table keyed by an enum that has
+    an entry for every variant: `TABLE.iter().find_map(|&(k, v)| (k == self).then_some(v)).expect(..)`.
+
+    A run must arrive at the site with the non-panicking variant; what `g` does afterwards need not be modelled when the site
+    is not on a cycle (it runs at most once per call).  Anything outside the fragment before that -- a foreign call, a value
+    the model cannot represent, an opaque key -- and the answer is (False, why): the site stays an ordinary census site."""
+    spaces = []
+    for i in range(1, g.argc + 1):
+        ty = g.local_ty(i)
+        refs = 0
+        while True:
+            m = re.match(r"^&('[^ ]+ )?(mut )?(.*)$", ty)
+            if not m:
+                break
+            refs, ty = refs + 1, m.group(3)
+        a = facts.adts.get(ty)
+        if a and a.get("kind") == "enum" and a["variants"] and all(not v["fields"] for v in a["variants"]):
+            spaces.append([(ty, vi, v["name"], refs) for vi, v in enumerate(a["variants"])])
+        else:
+            spaces.append([None])
+    n = 1
+    for sp in spaces:
+        n *= len(sp)
+    if n > max_inputs:
+        return False, "more than %d combinations of enum parameters" % max_inputs
+    in_loop = site in g.loop_blocks()
+    reached = 0
+    keys = []
+    try:
+        for combo in itertools.product(*spaces):
+            def run(ch, combo=combo):
+                it = _SiteInterp(facts, g, site, ch)
+                args = []
+                for c in combo:
+                    if c is None:
+                        args.append(A.V_opaque("parameter"))
+                        continue
+                    v = A.V_enum(c[0], c[1], c[2], [])
+                    for _ in range(c[3]):
+                        v = A.V_ref(A.Cell(v))
+                    args.append(v)
+                try:
+                    it.call_fn(g, args)
+                except A.LeavesFragment:
+                    if not it.passed or in_loop:
+                        raise
+                return it, it.passed
+            outs = A.explore(run)
+            if not all(outs):
+                return False, "a run of %s ends without passing the site" % g.id
+            reached += len(outs)
+            keys.append("/".join(c[2] for c in combo if c is not None) or "-")
+    except _SiteFails as e:
+        return False, str(e)
+    except A.LeavesFragment as e:
+        return False, "not decidable by evaluation: %s" % e
+    except (KeyError, IndexError, TypeError, AttributeError) as e:
+        return False, "not decidable by evaluation (%s: %s)" % (type(e).__name__, e)
+    return reached > 0, "evaluated on every input (%s; %d run(s)): the tested value is never the panicking variant" % (", ".join(keys), reached)
